@@ -174,14 +174,15 @@ def run_plan(plan: dict) -> dict:
                     finally:
                         gm.uninstall()
                     bump("designs_compared")
-                    log.add("designs", None, [o1.get("ok") or o1.get("exc"), o2.get("ok") or o2.get("exc")])
+                    log.add("designs", None, [(o1.get("ok") or {}).get("nbh", o1.get("exc")), (o2.get("ok") or {}).get("nbh", o2.get("exc"))])
                     if ("ok" in o1) != ("ok" in o2) or o1.get("exc") != o2.get("exc"):
                         viol("reloaded_design_outcome_differs", f"{o1.get('exc', 'design')} vs {o2.get('exc', 'design')}", site=variant)
                     elif "ok" in o1:
                         a, b = o1["ok"], o2["ok"]
-                        if a["nbh"] != b["nbh"] or a["coords"] != b["coords"] or abs(float.fromhex(a["H"]) - float.fromhex(b["H"])) > 1e-6:
-                            viol("reloaded_design_differs", f"{a['nbh']}@{float.fromhex(a['H'])} vs {b['nbh']}@{float.fromhex(b['H'])}",
-                                 site=variant)
+                        from .kernel import close
+
+                        if a["nbh"] != b["nbh"] or not close(a["coords"], b["coords"], 0.0, 1e-9)[0] or abs(a["H"] - b["H"]) > 1e-6:
+                            viol("reloaded_design_differs", f"{a['nbh']}@{a['H']} vs {b['nbh']}@{b['H']}", site=variant)
     info = {"digest": log.run_digest(), "count": count, "nontrivial": True, "cost": 1,
             "sets": {"variants": [f"{variant}:{cfg['pipe']['arrangement']}:{cfg['fluid']['fluid_name']}"]},
             "sample": {"variant": variant, "pipe": cfg["pipe"]["arrangement"], "fluid": cfg["fluid"], "order": plan["order"],
